@@ -44,3 +44,20 @@ more('decl.c', 'decl', 'error', "function '%s' redefined",
 site('decl.c', 'declspecs', 'error', 'alignment specifier applied to incomplete or function type',
      T('decl', '_Alignas(int(void)) int x_;'), T('decl', 'struct s_; _Alignas(struct s_) int x_;'), T('decl', '_Alignas(int[]) int x_;'),
      T('decl', '_Alignas(void) int x_;'), T('bdecl', '_Alignas(union u_) char c_;', pre='union u_;'))
+
+# round 16: members of structs that are not lvalues (function results, conditional and assignment expressions), `(void, ...)`,
+# a backslash followed by a NUL byte in a literal that is only scanned (macro body, -E)
+W_ENC2 = 'gcc only warns about a null character in a literal; cproc documents it as unsupported input'
+W_RV = 'gcc 12 accepts the member of an rvalue struct as an lvalue only in C99 and later for arrays; this scalar form is rejected by it as well'
+more('expr.c', 'assignexpr', 'error', 'left side of assignment expression is not an lvalue',
+     T('bdecl', 'mk_().x_ = 1;', pre='struct s_ { int x_, y_; } mk_(void);'),
+     T('bdecl', '(h_v ? s1_ : s2_).y_ = 2;', pre='struct s_ { int x_, y_; } s1_, s2_;'),
+     T('bdecl', '(s1_ = s2_).x_ = 3;', pre='struct s_ { int x_, y_; } s1_, s2_;'),
+     T('bdecl', '(0, s1_).x_ = 3;', pre='struct s_ { int x_, y_; } s1_, s2_;'))
+more('expr.c', 'mkunaryexpr', 'error', "'&' operand is not an lvalue or function designator",
+     T('bdecl', 'int *p_ = &(s1_ = s2_).y_;', pre='struct s_ { int x_, y_; } s1_, s2_;'),
+     T('bdecl', 'int *p_ = &mk_().x_;', pre='struct s_ { int x_, y_; } mk_(void);'))
+more('decl.c', 'declaratortypes', 'error', "parameter has type 'void'",
+     T('decl', 'int f_(void, ...);'), T('decl', 'struct s_ { int (*fp_)(void, ...); };'), T('fdecl', 'int f_(void, ...) { return 0; }'))
+more('scan.c', 'escape', 'error', 'invalid escape sequence',
+     T('pp', '#define M_ "a\\\x00b"', gcc=W_ENC2), T('pp', "#define M_ '\\\x00'", gcc=W_ENC2))
